@@ -30,5 +30,5 @@ PROPS["C04"] = dict(
                                          "l3vpn-ipv4-flowspec", "ipv6-flowspec", "l3vpn-ipv6-flowspec", "l2vpn-flowspec", "opaque", "ls",
                                          "ipv4-srpolicy", "ipv6-srpolicy", "ipv4-mup", "ipv6-mup")],
     units=[dict(name="bgp", harness="t_bgp", files=["gen_", "c04_"], run="TestVerifC04",
-                shards=dict(quick=16, thorough=16), timeout_s=dict(quick=900, thorough=7200))],
+                shards=dict(quick=16, thorough=16), timeout_s=dict(quick=420, thorough=7200))],
 )
